@@ -20,3 +20,4 @@ PROP = {'engine': 'stack',
  'level_note': 'processes are goroutines behind a fake supervisor; Cognito identity and content-type headers are not reachable through the emulator '
                'front end',
  'technique': 'property-based testing (rapid): generated invocation histories, history invariant with byte equality'}
+PROP['rule'] += ' Round-4 addition: client contexts of bytes that are not UTF-8 (Latin-1 text, binary; written hex:<digits> in scenario and trace, which are JSON) must reach the runtime byte for byte.'
